@@ -13,6 +13,19 @@ NOTE_COMMON = ("Trusted: Lean 4.33 kernel; axioms propext/Classical.choice/Quot.
                "double arithmetic is exact (float residue, DESIGN §3.1/§6).")
 
 CLAIMS = {
+    "C09": dict(
+        category="proof", design_ref="§7 C09",
+        technique="Lean 4 theorems over a hand-written model of ms.py's option records, printer and argparse layer (print/parse round trip for every option kind relative to an explicit number-codec hypothesis) + differential correspondence and semantic round-trip comparison through an independent ms interpreter",
+        text=("Second sentence of the property (option strings): kernel-checked theorems print_parse_option_partial (EVERY option record with valid parameters — -G/-eG, -g/-eg, -eN, "
+              "-n/-en, -eM, -m/-em, -ema, -es, -ej — prints to a string that the Model of the library's own argparse layer parses back to exactly one option of the same kind, in the "
+              "right list, with the same indices and values: exactly for non-negative numbers, within 5e-11 for negative ones printed in fixed point), print_parse_option_exact, "
+              "print_parse_structure(_samples), printed_numbers_are_not_flags, parser_arity_matches_printer, dest_matches_table, parser_tables_match_source (Model tables = tables "
+              "regenerated from the source), relative to the explicit hypothesis NumCodec on str(float)/'.10f' (satisfiable: tableCodec); the excluded case is proved to fail "
+              "(print_parse_ma_counterexample / print_parse_ma_never: known finding F20), as are NaN times and -inf matrix entries. First sentence (graph -> ms -> graph): "
+              "toMs_fromMs_structure (single constant-size deme, every N0), closed instances with a pulse and with migration+join, ms_roundtrip_pulse1_counterexample (known finding F6); "
+              "the GENERAL round trip is not a theorem: it is checked by the differential — Model of to_ms/from_ms = code exactly (0 disagreements on thousands of graphs per run) and "
+              "the independent interpreter Spec.MsSem agrees with the graph's demography on every round trip."),
+        note=NOTE_COMMON + " PARTIAL: the general semantic round trip rests on correspondence + the Spec interpreter, not on a theorem. Number printing (str(float), format '.10f') is an explicit hypothesis; sizes/growth from math.exp/log are carried symbolically and compared at 1e-9."),
     "C04": dict(
         category="proof", design_ref="§7 C04",
         technique="Lean 4 composition theorems for the dump/load pipelines relative to explicit codec laws (hypotheses, tested on the installed ruamel.yaml/json) built on resolve_asdict, simplify_resolves and the C16 lemmas + end-to-end round-trip testing on the real text layer",
